@@ -166,6 +166,12 @@ func DoBatchWithOptions(ctx context.Context, op Operation, r DoBatchRing, keys [
 		return err
 	}
 
+	// With no keys there are no replica calls, so nothing would ever signal completion below.
+	if len(keys) == 0 {
+		o.Cleanup()
+		return nil
+	}
+
 	tracker := batchTracker{
 		done: make(chan struct{}, 1),
 		err:  make(chan error, 1),
